@@ -26,6 +26,18 @@ CHECKS = {
     "C06": ("grammar-based fuzzing (rapid token soup, mutation of valid programs, untyped programs, exhaustive truncation) + Go native coverage-guided fuzzing; validity-predicate oracle",
             "Every generated text is compiled under a drawn notation/option set; Compile must return exactly one of program/error without panicking; each compiled program runs Eval, TryEval, Dump, DumpTable under hostile bindings; a watchdog turns non-termination into a replayable violation and LOOP event positions must strictly increase. Thorough adds 90 s of native fuzzing on 16 workers. Exploration: absence of panics is never established.",
             "'Never hangs' = returns within 120 s per case (cases take microseconds) plus the monotone-position invariant. Inputs bounded to 64 KiB / nesting depth 50 000; Dump only on programs below 10 000 characters.", "§3 C06"),
+    "C17": ("property-based testing against a map-based set oracle + metamorphic symmetry relation + exhaustive boundary grid (rapid)",
+            "in/overlap on generated list pairs concentrated around the 100-element scan/hash switch, planted single common elements at list ends, empty literal / typed empty lists, sets, mismatches; literals and variables; four option sets. The (|A|,|B|) grid over {0,1,49,50,51,99,100,101}^2 is enumerated exhaustively on every run. Exploration.",
+            "Trusted: the map-based model. An empty []string value is the untyped empty list (the engine cannot tell a literal from a variable).", "§3 C17"),
+    "C18": ("property-based testing against an independent operator model + model-free algebraic laws + exhaustive small-pool sweep (rapid)",
+            "Single-operator expressions for every arithmetic/logic/comparison name and alias, counts 0..6, int64 extremes, wrong types at any position, literals and variables, four option sets; model through R plus laws evaluated on the engine itself; exhaustive operator x count x pool^n sweep. Exploration (value space sampled from structured pools).",
+            "eq/ne on lists/sets/nil/floats: totality only. Ill-typed and/or under FastEvaluation may take both leaves (either outcome accepted). One open known finding (C18-andor-nonbool-before-last).", "§3 C18"),
+    "C19": ("property-based testing: order-preservation relation over generated pairs against component-wise comparison and hand-written civil-date arithmetic (rapid)",
+            "Version pairs at carry boundaries / differing component counts / every valid length, date pairs formatted by the harness in default and custom layouts (incl. zone offsets) through every operator name; encodings compared with a positional model and days-from-civil arithmetic, order checked through the engine's own comparison operators; fixed rejection list. Exploration.",
+            "Domain: components 0..9999, component count <= valid length; years 1..9999; five layouts the harness can format and parse by hand.", "§3 C19"),
+    "C20": ("property-based differential testing of the generator's reported result against the reference evaluators R / K (rapid)",
+            "For generated (seed, level, type, options, variable maps) the returned text is read by the harness's own reader and evaluated by R or K; Res must match, the reference must not fail, and the engine's Compile/Eval/TryEval must agree under all 16 subsets. Exploration. One open known finding (level 0 returns a bare atom).",
+            "Variables are passed one map per variable in sorted order so that a run is a function of the seed.", "§3 C20"),
 }
 
 NOT_YET = {}
